@@ -271,6 +271,12 @@ def compare(ck, store, outs, crashes):
                     # point set whose triangles have a doubled area below the absolute collinearity tolerance (1e-6)
                     judge(cid, keep, keep["exp"], r["obstiny"], "convex hull of a point set of extent < 1e-3",
                           other_cause="hull-below-collinearity-tolerance")
+                if "obsdied" in r:
+                    # the hull operations died (H = no answer within 5 s, C = crash) on an image with rounded coordinates.
+                    # Known only for sets with a point inside a hull edge (three collinear points on the boundary:
+                    # tag 'onedge' computed by TLC), which rounding makes nearly collinear
+                    judge(cid, keep, keep["exp"], r["obsdied"], "convex hull on rounded coordinates (images by 1/3, 1/7): no answer",
+                          other_cause="hull-collinear-boundary-points-rounded" if keep["onedge"] > 0 else "none")
                 for m, ents in enumerate(r["obsmask"]):
                     judge(cid, keep, keep["sel"][m], ents, "convex hull: selection of a target with %s selection" % meta["masks"][m]["name"])
             else:
@@ -490,7 +496,7 @@ def run(tier):
             ("MC_PolygonHull", HULL_CFG % dict(G=3, maxpts=9, minpts=3), "hulls_3x3_all_subsets", "full", {}),
             ("MC_PolygonHull", HULL_CFG % dict(G=4, maxpts=5, minpts=3), "hulls_4x4_le5_points", "lite", {}),
             ("MC_PolygonHull", HULL_CFG % dict(G=5, maxpts=12, minpts=6), "hulls_5x5_6to12_points_simulated", "lite",
-             dict(simulate=1500, depth=13, nworkers=1))]
+             dict(simulate=6000, depth=13, nworkers=1))]
     run_all(ck, specs)
     require(ck, ["polygons_ccw", "polygons_cw", "polygons_convex", "polygons_nonconvex", "polygons_with_collinear_vertex",
                  "polygons_100+_vertices", "points_inside", "points_outside", "points_level_with_vertex",
